@@ -126,7 +126,8 @@ def enc_uclchem(r, marker):
     if marker:
         re_ = re_[:1] + [marker] + re_[1:2]
     re_ = re_ + ["NAN"] * (3 - len(re_))
-    pr_ = r["pr"] + ["NAN"] * (4 - len(r["pr"]))
+    pr_ = r["pr"] + r.get("ucl_marker_products", [])
+    pr_ = pr_ + ["NAN"] * (4 - len(pr_))
     return ",".join([*re_, *pr_, f"{r['alpha']:.2e}", f"{r['beta']:.2f}", f"{r['gamma']:.1f}", f"{r['tmin']:g}", f"{r['tmax']:g}"])
 
 
@@ -241,9 +242,16 @@ def gen_file(rng, fmt, n, layout=None, extra_markers=()):
             e["tmin"], e["tmax"] = float(int(max(r["tmin"], 0))), float(int(r["tmax"]))
         elif fmt == "uclchem":
             marker = rng.choice([None, None, "CRP", "PHOTON", "CRPHOT", "FREEZE", "DESOH2", "DESCR", "DEUVCR", "THERM"])
+            if i == 1:
+                marker, r["pr"] = None, r["pr"][:3]        # (one radiative two-body line in every file)
+                e["pr"] = r["pr"]
             if marker:
                 r["re"] = r["re"][:2]
                 e["re"] = r["re"]
+            if marker in (None, "CRP") and len(r["pr"]) < 4 and (rng.random() < 0.35 or i == 1):
+                # radiative association / recombination lists the emitted photon among the products, cosmic-ray ionisation sometimes
+                # the particle: a marker in a product column names no species and does not decide the reaction type
+                r["ucl_marker_products"] = [rng.choice(["PHOTON", "CRP"]) if marker is None else "CRP"]
             lines.append(enc_uclchem(r, marker))
             e["type"] = UCL_TYPES[marker]
             e["idx"] = -1
@@ -543,6 +551,7 @@ def run_c18(argv):
         d["rate_modifier"] = {str(rng.choice([1, 2, 3])): rng.choice([0.0, 0, "0.0", 2.5e-10]), "5": rng.choice(["2.0 * zeta", 0.0, "1.0e-10"])}
         descs.append(d)
     descs.append(c20.grain_species_desc(rng))
+    descs.append(c20.user_binding_desc(rng))      # user binding energies and yields have to survive the export as well
     c20.process(chk, descs, [])
     # exporting an edited network again into the same project directory: the project's files must describe the edited network
     from .c17 import run_worker, native
